@@ -95,8 +95,17 @@ func gridItem(id int, s txSpec, placement string) *item {
 	default:
 		core.Fatal("unknown placement %q", placement)
 	}
+	// scheduling hint only (never used by the oracle): will this tx reach the AdminOP precompile with an input it mishandles?
 	p := payloadBytes(s.P)
-	it.risky = s.R == "fe" && s.N == 0 && s.S == "valid" && (len(p) < 52 || s.P == "z52") && (s.G == "std" || s.G == "max") && s.Pr != "max" && s.V != "bal+1"
+	executes := ((s.S == "valid" && s.N == 0) || (s.S == "vflip" && s.N == -1)) && (s.G == "std" || s.G == "max") && s.Pr != "max" && s.V != "bal+1" && !(s.Pr == "1" && s.V == "bal") && !bytes.HasPrefix(p, []byte("kvTx-"))
+	if s.S == "vflip" {
+		executes = executes && s.Pr == "0" && s.V == "0"
+	}
+	short := len(p) < 52
+	if !short {
+		short = new(big.Int).SetBytes(p[:32]).Uint64()+32 < 52
+	}
+	it.risky = s.R == "fe" && executes && short
 	return it
 }
 
@@ -146,12 +155,15 @@ type driver struct {
 	evals   int64
 	rawID   int64
 	done    int64
+	splits  int64
 }
 
 // runChain executes the items one after the other on one fresh application
 // instance and judges the whole block sequence.  A panic ends the instance: the
 // items before and after the panicking one are re-run on new instances.
-func (d *driver) runChain(items []*item) {
+func (d *driver) runChain(items []*item) { d.runChainN(items, 0) }
+
+func (d *driver) runChainN(items []*item, attempt int) {
 	if len(items) == 0 {
 		return
 	}
@@ -167,10 +179,33 @@ func (d *driver) runChain(items []*item) {
 	}
 	fs, outcome, rec := d.e.check(blocks)
 	atomic.AddInt64(&d.done, 1)
+	if rec.Panic && rec.PanicPhase == "result" {
+		// schedule-dependent loss of the reported bytes: record it and judge the same cases again
+		j := owner[rec.PanicAt]
+		d.mu.Lock()
+		for _, f := range fs {
+			h := hit{order: items[j].id, alone: len(items) == 1, sig: f.sig, item: items[j], where: fmt.Sprintf("block %d of the case", rec.PanicAt-first[j]+1), detail: f.detail}
+			if len(items) > 1 {
+				h.chain = items
+			}
+			d.hits = append(d.hits, h)
+		}
+		d.mu.Unlock()
+		if attempt < 3 {
+			d.runChainN(items, attempt+1)
+		} else {
+			core.Fatal("the reported bytes were torn in 4 consecutive runs of the same chain; cannot judge it")
+		}
+		return
+	}
 	if rec.Panic {
 		j := owner[rec.PanicAt]
 		it := items[j]
 		if len(items) > 1 {
+			atomic.AddInt64(&d.splits, 1)
+			if os.Getenv("C09_DEBUG") != "" {
+				fmt.Fprintf(os.Stderr, "unpredicted panic in chain: %s: %s\n", it.k.describe(), rec.PanicVal)
+			}
 			d.runChain(items[:j])
 			d.runChain([]*item{it})
 			d.runChain(items[j+1:])
@@ -359,7 +394,7 @@ func mutants(b []byte) [][]byte {
 			add(m)
 		}
 	}
-	for n := 0; n < len(b); n++ {
+	for n := 1; n < len(b); n++ { // the empty prefix is the empty string of the short-string set
 		add(append([]byte{}, b[:n]...))
 	}
 	return out
@@ -406,7 +441,7 @@ func main() {
 	if pf := os.Getenv("C09_CPUPROFILE"); pf != "" {
 		f, _ := os.Create(pf)
 		pprof.StartCPUProfile(f)
-		go func() { time.Sleep(100 * time.Second); pprof.StopCPUProfile(); f.Close() }()
+		go func() { time.Sleep(150 * time.Second); pprof.StopCPUProfile(); f.Close() }()
 	}
 	debug.SetGCPercent(50)
 	debug.SetMemoryLimit(3 << 30)
@@ -555,23 +590,24 @@ func main() {
 	e.base.Close()
 
 	run.Finish(core.Coverage{
-		"evaluations":                    int(atomic.LoadInt64(&d.evals)),
-		"grid_transactions":              len(specs),
-		"grid_cases":                     nGridItems,
-		"grid_cases_spinning":            spinning,
-		"raw_short_strings":              len(short),
-		"raw_mutants":                    nMut,
-		"chains_planned":                 len(chains),
-		"sequences_executed":             int(atomic.LoadInt64(&e.runs)),
-		"blocks_executed":                int(atomic.LoadInt64(&e.blocks)),
-		"txs_executed":                   int(atomic.LoadInt64(&e.txs)),
-		"receipts_hash_positional_skips": int(atomic.LoadInt64(&e.positionalSkips)),
-		"distinct_nontrivial":            d.classes.Len(),
-		"input_classes":                  d.inputs.Map(),
-		"outcome_classes":                d.classes.Map(),
-		"peak_rss_mb":                    vmHWM(),
-		"exhaustive":                     true,
-		"samples":                        d.samples.List(),
+		"evaluations":                          int(atomic.LoadInt64(&d.evals)),
+		"grid_transactions":                    len(specs),
+		"grid_cases":                           nGridItems,
+		"grid_cases_spinning":                  spinning,
+		"raw_short_strings":                    len(short),
+		"raw_mutants":                          nMut,
+		"chains_planned":                       len(chains),
+		"chains_split_after_unpredicted_panic": int(atomic.LoadInt64(&d.splits)),
+		"sequences_executed":                   int(atomic.LoadInt64(&e.runs)),
+		"blocks_executed":                      int(atomic.LoadInt64(&e.blocks)),
+		"txs_executed":                         int(atomic.LoadInt64(&e.txs)),
+		"receipts_hash_positional_skips":       int(atomic.LoadInt64(&e.positionalSkips)),
+		"distinct_nontrivial":                  d.classes.Len(),
+		"input_classes":                        d.inputs.Map(),
+		"outcome_classes":                      d.classes.Map(),
+		"peak_rss_mb":                          vmHWM(),
+		"exhaustive":                           true,
+		"samples":                              d.samples.List(),
 		"rule": "base state: harness genesis (DefaultGenesis + one sender per case funded 1e24 wei with nonce 1, an EOA with 1000 wei) + one block deploying the Store and Loop fixtures and a KV put. " +
 			"Dimensions: recipient R = {contract creation, precompiles 0x01..0x08, AdminOP precompile 0xfe, admin contract 0x02000000, funded EOA, non-existent address, Store contract, Loop contract, self} (16); " +
 			"payload P = {empty, 1 byte, 31/32/33/51/52 pattern bytes, 52 zero bytes, KV marker only, KV marker + bad RLP, valid KV, KV with 257-byte key, KV with 4097-byte value, Store.set call, Store.fail (reverting) call, spin code 5b600056, admin-op calldata accepted by the callback, admin-op calldata refused} (18); " +
@@ -579,7 +615,7 @@ func main() {
 			"Thorough enumerates, all other dimensions at the default (EOA, empty, cur, 10^7, 0, 0, valid): A = R x P x N (Loop recipient restricted to P in {empty, set, kv, b52}); B = R x G x Pr x V; C = S x N x {empty, kv, set} x {create, 0xfe, Store, EOA, self}; D = {Store, 0xfe, create} x P x G x Pr; E = {Store, 0xfe, create, EOA} x P x V; F = S x R and S x P(to Store); G' = {Store, EOA, create, 0xfe} x N x G x Pr x V; duplicates removed; of the combinations that make the interpreter spin to its 10^8-gas budget (~0.6 s each) only a fixed subset is kept. " +
 			"Quick enumerates A with N != cur only for P in {empty, kv, set} and the Loop recipient only with P in {empty, kv}; B without G=0, Pr=max, V=balance; C for P in {kv, set} and R in {0xfe, Store, self}; F = S x R. " +
 			"Every grid tx gives three cases, each with a sender of its own: (i)+(iii) alone in a block and again in the next block, (ii) twice in one block, (iv) between a valid contract call and a valid KV put of another sender. " +
-			"Raw block txs: the empty string alone, the other 65792 byte strings of length <= 2 in blocks of 1024 followed by one valid tx, and for three valid encoded txs (transfer, KV put, contract call with log) every single-byte replacement by {00,01,7f,80,ff} and every proper prefix in blocks of 64 followed by one valid tx; a block that panics is bisected so that the remaining strings are still judged. " +
+			"Raw block txs: the empty string alone, the other 65792 byte strings of length <= 2 in blocks of 1024 followed by one valid tx, and for three valid encoded txs (transfer, KV put, contract call with log) every single-byte replacement by {00,01,7f,80,ff} and every proper non-empty prefix in blocks of 64 followed by one valid tx; a block that panics is bisected so that the remaining strings are still judged. " +
 			"Cases are executed in chains of ~128 on one application instance (fresh copy of the base state per chain; cases expected to panic run alone; after a panic the rest of the chain is re-run on a new instance); the oracle is evaluated on the whole block sequence, its counterfactual (the sequence without every tx reported invalid) runs on another fresh copy; a finding is re-confirmed with its case alone on a fresh base state. " +
 			"evaluations = (tx, placement) pairs judged (raw: one per string); distinct_nontrivial = distinct (input class, placement, per-block verdict pattern with normalised error text) outcomes observed.",
 	}, []string{
